@@ -892,6 +892,15 @@ func CutEdges(fn *ssa.Function, lits ...Lit) (map[Edge]bool, []int) {
 			}
 		}
 	}
+	// the outcome of a predicate helper that it can only produce through such edges
+	if pc, pper, _ := predicateEdges(fn, lits); len(pc) > 0 {
+		for e := range pc {
+			cut[e] = true
+		}
+		for i := range pper {
+			per[i] += pper[i]
+		}
+	}
 	return cut, per
 }
 
